@@ -14,7 +14,9 @@ import (
 	"path/filepath"
 	"sort"
 	"strings"
+	"time"
 
+	"verif/csnet"
 	"verif/kv"
 	"verif/minichain"
 	"verif/txkit"
@@ -38,6 +40,7 @@ type poolCfg struct {
 	MaxReap                    int // 0 = repository default
 	Remove                     bool
 	Cache                      string // "light" (the real cache type) | "none"
+	Lifetime                   int    // config.Lifetime in seconds; 0 = never (1000 h, like GoodTxDropTime)
 	World                      string // "" = the standard world (A, B, C own 1000 coins), "bnd" = exact-balance senders (boundary.go)
 }
 
@@ -53,6 +56,9 @@ func (p poolCfg) mempool() *cfg.MempoolConfig {
 		m.MaxReapSize = p.MaxReap
 	}
 	m.RemoveFutureTx = p.Remove
+	if p.Lifetime > 0 {
+		m.Lifetime = time.Duration(p.Lifetime) * time.Second
+	}
 	return m
 }
 
@@ -69,6 +75,9 @@ var allCfgs = []poolCfg{
 	// exact balance boundaries (boundary.go)
 	{Name: "bnd-default", Cache: "light", World: "bnd"},
 	{Name: "bnd-s2f2q2", Size: 2, Future: 2, AccountQueue: 2, Remove: true, Cache: "light", World: "bnd"},
+	// ageing of pool entries (the clock is an input: Age operations): Lifetime below GoodTxDropTime, and both equal
+	{Name: "age-l30", Cache: "light", Lifetime: 30, World: "age"},
+	{Name: "age-default", Cache: "light", World: "age"},
 }
 
 // ---------------------------------------------------------------------------------------------------
@@ -89,6 +98,9 @@ var (
 	// quota crossing: one sender with two account->confidential transfers at consecutive nonces followed by a plain
 	// transfer (c0, c1, c2), a third account->confidential transfer of another sender (aA), other senders' plain
 	// transfers, two independent pure confidential spends
+	// ageing: consecutive-nonce pairs of special transactions (m0, m1), of plain transfers (a1, a2), and of an
+	// account->confidential transfer followed by a plain transfer of the same sender (c0, c1p)
+	lettersAge   = []string{"m0", "m1", "a1", "a2", "c0", "c1p"}
 	lettersQuota = []string{"c0", "c1", "c2", "aA", "a1", "a2", "b0", "u1", "u3"}
 )
 
@@ -104,6 +116,8 @@ func searchSpecs(thorough bool) []searchSpec {
 			{"boundary-k", "bnd-default", boundaryLetters("k"), 5},
 			{"boundary-u", "bnd-default", boundaryLetters("u"), 5},
 			{"boundary-v", "bnd-default", boundaryLetters("v"), 5},
+			{"age-l30", "age-l30", lettersAge, 4},
+			{"age-default", "age-default", lettersAge, 4},
 		}
 	}
 	return []searchSpec{
@@ -119,6 +133,8 @@ func searchSpecs(thorough bool) []searchSpec {
 		{"boundary-k", "bnd-default", boundaryLetters("k"), 6},
 		{"boundary-u", "bnd-default", boundaryLetters("u"), 6},
 		{"boundary-v", "bnd-default", boundaryLetters("v"), 6},
+		{"age-l30", "age-l30", lettersAge, 6},
+		{"age-default", "age-default", lettersAge, 5},
 		{"boundary-puv-small", "bnd-s2f2q2", append(append(boundaryLetters("p"), boundaryLetters("u")...), boundaryLetters("v")...), 5},
 	}
 }
@@ -137,19 +153,23 @@ func findSearch(thorough bool, name string) *searchSpec {
 func (u *universe) enabledOps(sp *searchSpec) []bool {
 	ops := u.ops()
 	out := make([]bool, len(ops))
-	bnd := false
+	bnd, age := false, false
 	for _, pc := range allCfgs {
-		if pc.Name == sp.Cfg && pc.World == "bnd" {
-			bnd = true
+		if pc.Name == sp.Cfg {
+			bnd, age = pc.World == "bnd", pc.World == "age"
 		}
 	}
 	for i, o := range ops {
+		if o.kind == opAge {
+			out[i] = age
+			continue
+		}
 		if o.kind == opCommitOther && o.x >= 0 {
 			out[i] = !bnd // blocks of the standard world's transactions
 			continue
 		}
 		if o.kind == opAdd && sp.Letters == nil {
-			out[i] = u.txs[o.x].Sender < bndFirst // "all letters" = all letters of the standard world
+			out[i] = u.txs[o.x].Sender >= 0 && u.txs[o.x].Sender < bndFirst || u.txs[o.x].Sender < 0 // "all letters" = all letters of the standard world
 			continue
 		}
 		if o.kind != opAdd {
@@ -238,6 +258,9 @@ func facts(tx types.Tx) (sender int, nonce uint64, cost *big.Int, kis []lktypes.
 			return -1, 0, nil, nil, e
 		}
 		return acctIndexOrNew(from), t.Nonce(), t.Cost(), nil, nil
+	case *types.MultiSignAccountTx:
+		from, _ := t.From()
+		return acctIndexOrNew(from), t.Nonce(), new(big.Int), nil, nil
 	case *types.TokenTransaction:
 		from, e := t.From()
 		if e != nil {
@@ -314,15 +337,21 @@ func buildUniverse(cfgs []poolCfg) *universe {
 	u.pnames[decodeTx(u.prefix[0]).Hash()] = "ain0"
 	std := &world{name: "std", accts: []int{0, 1, 2}, alloc: txkit.Alloc(initialBalance), blocks: [][][]byte{u.prefix}, pnames: u.pnames}
 	u.worlds["std"] = std
+	ageW := &world{name: "age", accts: []int{0, 1, 2, idxMultiSign}, alloc: std.alloc, blocks: std.blocks, pnames: std.pnames}
+	u.worlds["age"] = ageW
 	needStd := false
 	for _, pc := range cfgs {
-		if pc.World != "" {
+		if pc.World != "" && pc.World != "age" {
 			continue
 		}
 		needStd = true
 		rec := kv.NewRecorder()
-		c := u.newPlainChain(std, pc, rec)
-		u.bases[pc.Name] = &base{cfg: pc, rec: rec, chain: c, n: rec.Len(), world: std}
+		w := std
+		if pc.World == "age" {
+			w = ageW
+		}
+		c := u.newPlainChain(w, pc, rec)
+		u.bases[pc.Name] = &base{cfg: pc, rec: rec, chain: c, n: rec.Len(), world: w}
 		if len(led.Owned) == 0 {
 			led.Sync(c)
 		}
@@ -365,6 +394,12 @@ func buildUniverse(cfgs []poolCfg) *universe {
 	u.add("c1p", "twin", txkit.Transfer(C, 1, D.Addr, txkit.LKC(5)), true)
 	u.add("u3", "conf", mk(kit.Transfer(led, txkit.W0, own[1:2], 1, []txkit.Dest{txkit.ToWallet(txkit.W1, 1, txkit.LKC(40))}, 0)), true)
 	u.add("bU", "underfunded", txkit.Underfunded(B, 0, D.Addr, initialBalance), true)
+	// special transactions (sender types.MultiSignNonceAddr, committed nonce 0) at consecutive nonces, signed by the validator
+	valKey := csnet.NewFixture([]int64{10}).Keys[0]
+	for n := uint64(0); n < 2; n++ {
+		u.add(fmt.Sprintf("m%d", n), "special", txkit.MultiSign(n, types.TxContractCreateType, 10, []*types.SignerEntry{{Power: 10, Addr: A.Addr}},
+			[]txkit.ValidatorSigner{txkit.SignerOf(valKey)}), true)
+	}
 	u.buildBoundary(kit, cfgs)
 	u.nAdd = len(u.txs)
 	// CommitOther: blocks that do not come from the pool and conflict with pool content
@@ -428,6 +463,7 @@ const (
 	opAdd opKind = iota
 	opCommitReaped
 	opCommitOther
+	opAge // the clock moves for ONE pool entry: x = 2*letter + class (0: older than config.Lifetime, 1: older than GoodTxDropTime)
 )
 
 type op struct {
@@ -445,6 +481,10 @@ func (u *universe) ops() []op {
 		out = append(out, op{opCommitOther, x})
 	}
 	out = append(out, op{opCommitOther, -1}) // an empty block from elsewhere, whatever the pool holds
+	for _, n := range []string{"m0", "a1", "c0"} {
+		i := u.byHash[u.txByName(n).Hash]
+		out = append(out, op{opAge, 2 * i}, op{opAge, 2*i + 1})
+	}
 	return out
 }
 
@@ -457,6 +497,11 @@ func (u *universe) opName(o op) string {
 			return "CommitReaped(all)"
 		}
 		return fmt.Sprintf("CommitReaped(%d)", o.x)
+	case opAge:
+		if o.x%2 == 0 {
+			return "Age(" + u.txs[o.x/2].Name + " older than config.Lifetime)"
+		}
+		return "Age(" + u.txs[o.x/2].Name + " older than GoodTxDropTime)"
 	case opCommitOther:
 		if o.x < 0 {
 			return "CommitOther([])"
@@ -468,6 +513,8 @@ func (u *universe) opName(o op) string {
 
 func (o op) kindName() string {
 	switch o.kind {
+	case opAge:
+		return "Age"
 	case opAdd:
 		return "AddTx"
 	case opCommitReaped:
@@ -687,6 +734,15 @@ func (in *inst) apply(o op, variant int) (enabled bool, vkey, what string) {
 		if k, w := in.validateAndCommit(b, parts); k != "" {
 			return true, k, w
 		}
+	case opAge:
+		mem := in.c.Mempool()
+		d := mempl.GoodTxDropTime + time.Hour
+		if o.x%2 == 0 {
+			d = mempl.VerifC15Lifetime(mem) + time.Second
+		}
+		if !mempl.VerifC15Age(mem, u.txs[o.x/2].Hash, d) {
+			return false, "", "" // not in goodTxs / utxoTxs / specGoodTxs: nothing to age
+		}
 	case opCommitOther:
 		if o.x < 0 {
 			b, err := in.c.Step(types.Txs{})
@@ -843,6 +899,24 @@ func (in *inst) oracle() (string, string) {
 			in.limits["account-queue-reached"] = true
 		}
 	}
+	if in.base.world.name == "age" {
+		ages, life := mempl.VerifC15Ages(mem), mempl.VerifC15Lifetime(mem)
+		for _, tx := range v.Spec {
+			if a := ages[tx.Hash()]; a.HasAdd && a.Add >= life && a.Beat < mempl.GoodTxDropTime {
+				in.limits["aged-entry:special-tx-older-than-Lifetime"] = true
+			}
+		}
+		for _, l := range []types.Txs{v.Good, v.UTXO, v.Spec} {
+			for _, tx := range l {
+				if a := ages[tx.Hash()]; a.HasBeat && a.Beat >= mempl.GoodTxDropTime {
+					in.limits["aged-entry:older-than-GoodTxDropTime"] = true
+				}
+			}
+		}
+		if len(v.Spec) >= 2 {
+			in.limits["two-special-txs-pooled"] = true
+		}
+	}
 	// 1. every Reap(n)
 	for _, n := range reapSizes {
 		in.reaps++
@@ -853,7 +927,7 @@ func (in *inst) oracle() (string, string) {
 		if in.base.world.name == "bnd" {
 			per := map[int]int{}
 			for _, tx := range offer {
-				if s, _, _, _, err := facts(tx); err == nil && s >= bndFirst && s < len(allAccounts) {
+				if s, _, _, _, err := facts(tx); err == nil && s >= bndFirst && s < idxMultiSign {
 					per[s]++
 				}
 			}
@@ -952,7 +1026,27 @@ func (in *inst) stateString() string {
 	v := mempl.VerifC15View(mem)
 	var b strings.Builder
 	nm := func(txs types.Txs) string { return in.names(txs) }
-	fmt.Fprintf(&b, "good%s utxo%s spec%s", nm(v.Good), nm(v.UTXO), nm(v.Spec))
+	ages := mempl.VerifC15Ages(mem)
+	life := mempl.VerifC15Lifetime(mem)
+	// age class of an entry, as far as the pool's code can tell the difference: ">drop" = filterTxs will drop it at the next
+	// Update, ">life" = a special transaction that recheckSpecTxs will time out
+	aged := func(txs types.Txs, spec bool) string {
+		var out []string
+		for _, tx := range txs {
+			n := in.u.name(tx.Hash())
+			a := ages[tx.Hash()]
+			switch {
+			case a.HasBeat && a.Beat >= mempl.GoodTxDropTime:
+				n += ">drop"
+			case spec && a.HasAdd && a.Add >= life:
+				n += ">life"
+			}
+			out = append(out, n)
+		}
+		return "[" + strings.Join(out, " ") + "]"
+	}
+	_ = nm
+	fmt.Fprintf(&b, "good%s utxo%s spec%s", aged(v.Good, false), aged(v.UTXO, false), aged(v.Spec, true))
 	var fs []string
 	for a, q := range v.Future {
 		fs = append(fs, fmt.Sprintf("%d:%s", acctIndexOrNew(a), nm(q)))
